@@ -122,9 +122,10 @@ Definition do_uop (v : variant) (now : Z) (o : uop) (w : net) : net * list kc :=
   | UTcpWriteAll s seed total chunk h =>
       start_write_all cx s (pat seed total) chunk h w
   | UTcpReadAll s bufsize h =>
-      let w := w <| w_rall := mset (w_rall w) s (mkRall bufsize 0 1 0 h) |> in
+      let op := Z.of_nat (length (w_rall w)) in
+      let w := w <| w_rall := mset (w_rall w) op (mkRall s bufsize 0 1 0 h) |> in
       let (w, c0) := tcp_abort_recv s w in
-      let (w, c1) := tcp_async_read_impl s [bufsize] (hid_rall s) w in (w, c0 ++ c1)
+      let (w, c1) := tcp_async_read_impl s [bufsize] (hid_rall op) w in (w, c0 ++ c1)
   | URslvNew r node => (set_rslv w r (mkRslv node []), [])
   | UResolve r n port h => rslv_resolve cx r n port h w
   | URslvCancel r => rslv_cancel r w
@@ -175,20 +176,21 @@ Definition run_final (v : variant) (now : Z) (h : Z) (args : list Z) (w : net) :
     let x := (- h - 1000) / 4 in app_callback2 (mkcx v now) (x / 64) (x mod 64) args w
   else (w, []).
 
-Definition wall_step (v : variant) (now : Z) (s : Z) (args : list Z) (w : net) : net * list kc :=
-  let st := mget (mkWall [] 0 0 0) (w_wall w) s in
+Definition wall_step (v : variant) (now : Z) (op : Z) (args : list Z) (w : net) : net * list kc :=
+  let st := mget (mkWall 0 [] 0 0 0) (w_wall w) op in
+  let s := wa_sock st in
   match args with
   | [e; n] =>
       if negb (e =? EC_OK) then run_final v now (wa_h st) [e; wa_done st] w
       else
         let rest := skipn (Z.to_nat n) (wa_rest st) in
         let done := wa_done st + n in
-        let w := w <| w_wall := mset (w_wall w) s (mkWall rest done (wa_chunk st) (wa_h st)) |> in
+        let w := w <| w_wall := mset (w_wall w) op (mkWall s rest done (wa_chunk st) (wa_h st)) |> in
         match rest with
         | [] => run_final v now (wa_h st) [EC_OK; done] w
         | _ =>
             let (w, c0) := tcp_abort_send s w in
-            let (w, c1) := tcp_async_write_impl (mkcx v now) s [firstn (Z.to_nat (wa_chunk st)) rest] (hid_wall s) w in
+            let (w, c1) := tcp_async_write_impl (mkcx v now) s [firstn (Z.to_nat (wa_chunk st)) rest] (hid_wall op) w in
             (w, c0 ++ c1)
         end
   | _ => (w, [])
@@ -197,17 +199,18 @@ Definition wall_step (v : variant) (now : Z) (s : Z) (args : list Z) (w : net) :
 (* the composed read: the model carries the bytes of a completed read as
    (ec, n, n, digest); the running digest needs the bytes themselves, so the
    completion of a composed read carries them after the four standard fields *)
-Definition rall_step (v : variant) (now : Z) (s : Z) (args : list Z) (w : net) : net * list kc :=
-  let st := mget (mkRall 0 0 1 0 0) (w_rall w) s in
+Definition rall_step (v : variant) (now : Z) (op : Z) (args : list Z) (w : net) : net * list kc :=
+  let st := mget (mkRall 0 0 0 1 0 0) (w_rall w) op in
+  let s := ra_sock st in
   match args with
   | e :: n :: _ :: _ :: data =>
       if negb (e =? EC_OK) then
         run_script_handler v now (ra_h st) [e; ra_total st; ra_c st * 65536 + ra_a st] w
       else
         let (a, c) := fold_left adler_step data (ra_a st, ra_c st) in
-        let w := w <| w_rall := mset (w_rall w) s (mkRall (ra_buf st) (ra_total st + n) a c (ra_h st)) |> in
+        let w := w <| w_rall := mset (w_rall w) op (mkRall s (ra_buf st) (ra_total st + n) a c (ra_h st)) |> in
         let (w, c0) := tcp_abort_recv s w in
-        let (w, c1) := tcp_async_read_impl s [ra_buf st] (hid_rall s) w in
+        let (w, c1) := tcp_async_read_impl s [ra_buf st] (hid_rall op) w in
         (w, c0 ++ c1)
   | _ => (w, [])
   end.
